@@ -3,7 +3,8 @@
 
 Copies /repo/crates/ordinals/src byte-for-byte into a work directory and appends,
 to the module files listed in MODS, one line declaring a child module whose body
-lives in /verif/contracts/ordinals/.  Nothing is dropped or rewritten: every
+lives in /verif/contracts/ordinals/ (and, for a private nested module such as runestone/flag.rs, one
+`pub(crate) use` line in its parent so that the native replay registry can name it).  Nothing is dropped or rewritten: every
 copied file is the real file plus (for the listed ones) a trailing
 `#[cfg(any(kani, ordinals_ord_verif))] #[path = ...] mod verif_contracts;`.
 The manifest is regenerated from /repo/Cargo.toml's [workspace.*] tables because
@@ -83,6 +84,17 @@ def build(dest, extra_features=None):
                 + "mod verif_contracts;\n"
             )
         appended.append(rel)
+        if "/" in rel:
+            # the module is a private child (`mod flag;` in runestone.rs): the native replay registry
+            # lives at the crate root and cannot name it, so its parent re-exports the contract module
+            parent = os.path.join(dsrc, os.path.dirname(rel) + ".rs")
+            child = os.path.basename(rel)[:-3]
+            with open(parent, "a") as f:
+                f.write(
+                    "\n#[cfg(any(kani, ordinals_ord_verif))]\n"
+                    f"#[allow(unused_imports)]\npub(crate) use {child}::verif_contracts as verif_contracts_{child};\n"
+                )
+            appended.append(os.path.dirname(rel) + ".rs (re-export of " + child + "::verif_contracts)")
     # manifest
     lines = ["[package]", 'name = "ordinals"', f'version = {json.dumps(crate["package"]["version"])}',
              f'edition = {json.dumps(wpkg["edition"])}', "", "[lib]", 'path = "src/lib.rs"', "", "[dependencies]"]
